@@ -28,7 +28,8 @@ Record fixes := {
   fx_segnr404 : bool;       (* C08-segment-number-404.diff *)
   fx_time404 : bool;        (* C08-time-404.diff *)
   fx_mpd_status : bool;     (* C08-mpd-status.diff *)
-  fx_stop_order : bool      (* C08-stop-before-start.diff *)
+  fx_stop_order : bool;     (* C08-stop-before-start.diff *)
+  fx_location : bool        (* C08-location-parts.diff *)
 }.
 
 (** The tree as it is now (the lead applied the repairs on 2026-10-01, see /verif/.work/fixes_note.md). *)
@@ -53,7 +54,8 @@ Definition current : fixes := {|
   fx_segnr404 := true;     (* /repo d34e4da *)
   fx_time404 := true;     (* /repo 33c7128 *)
   fx_mpd_status := true;     (* /repo e7eedfb *)
-  fx_stop_order := true     (* /repo 1df8e52 *)
+  fx_stop_order := true;     (* /repo 1df8e52 *)
+  fx_location := false         (* proposed, not applied *)
 |}.
 
 Definition all_fixed : fixes := {|
@@ -61,14 +63,14 @@ Definition all_fixed : fixes := {|
   fx_snr := true; fx_traffic_idx := true; fx_chunkdur := true; fx_chunk_cap := true; fx_subs_startnr := true;
   fx_status_startnr := true; fx_status_cycle := true; fx_drm := true; fx_kid := true;
   fx_urlgen_create := true; fx_urlgen_drms := true; fx_nan := true; fx_segnr404 := true; fx_time404 := true;
-  fx_mpd_status := true; fx_stop_order := true |}.
+  fx_mpd_status := true; fx_stop_order := true; fx_location := true |}.
 
 Definition none_fixed : fixes := {|
   fx_stoprel := false; fx_annexI := false; fx_loss := false; fx_periods := false; fx_subsdur := false;
   fx_snr := false; fx_traffic_idx := false; fx_chunkdur := false; fx_chunk_cap := false; fx_subs_startnr := false;
   fx_status_startnr := false; fx_status_cycle := false; fx_drm := false; fx_kid := false;
   fx_urlgen_create := false; fx_urlgen_drms := false; fx_nan := false; fx_segnr404 := false; fx_time404 := false;
-  fx_mpd_status := false; fx_stop_order := false |}.
+  fx_mpd_status := false; fx_stop_order := false; fx_location := false |}.
 
 (** [current] plus the four status-class repairs proposed on 2026-10-01 (C08-nan, -segment-number-404,
     -time-404, -mpd-status) and C08-stop-before-start: what [current] becomes when they are applied. *)
@@ -79,4 +81,5 @@ Definition current_plus_status : fixes := {|
   fx_subs_startnr := fx_subs_startnr current; fx_status_startnr := fx_status_startnr current;
   fx_status_cycle := fx_status_cycle current; fx_drm := fx_drm current; fx_kid := fx_kid current;
   fx_urlgen_create := fx_urlgen_create current; fx_urlgen_drms := fx_urlgen_drms current;
-  fx_nan := true; fx_segnr404 := true; fx_time404 := true; fx_mpd_status := true; fx_stop_order := true |}.
+  fx_nan := true; fx_segnr404 := true; fx_time404 := true; fx_mpd_status := true; fx_stop_order := true;
+  fx_location := fx_location current |}.
